@@ -1,3 +1,4 @@
+import Pm.SerialProof
 import Pm.TelnetPass
 import Pm.CapProof
 import Pm.CbufRingRun
@@ -1013,5 +1014,223 @@ theorem C09_ring_flush (r : Ring) (h : r.valid = true) : (CbufRing.flush r).vali
 example : (CbufRing.flush wrappedRing).contents = [] ∧ (CbufRing.flush wrappedRing).i_in = 0 := by decide
 
 end ring
+
+end Pm.Props.C09
+
+/-! ## 9. Serial devices (`device_serial.c`)
+
+Between a serial device and the buffers of sections 1–7 sits the kernel's tty line discipline, configured by
+`_serial_setup`.  `Pm/Serial.lean` models the flags string (`sscanf`), `_serial_setup` edit by edit over this platform's
+`termios` constants (generated), and what the Linux line discipline does to bytes as a function of the flags
+(`ttyOut`, `ttyIn`: output post-processing, input mapping, flow-control and signal characters, canonical editing, echo);
+the correspondence layer `serial` runs the real code on a pseudo-terminal and pushes bytes through the real kernel.
+All statements are for **every** previous state of the tty and every byte string. -/
+namespace Pm.Props.C09
+open Pm.Serial Pm.Generated.Termios
+
+/-- the settings of a freshly opened Linux tty (`tty_std_termios`): `ICRNL IXON`, `OPOST ONLCR`, `B38400 CS8 CREAD`,
+    `ISIG ICANON ECHO ECHOE ECHOK ECHOCTL ECHOKE IEXTEN` -/
+def cookedTty : Termios := { iflag := 0x500, oflag := 5, cflag := 0xbf, lflag := 0x8a3b }
+
+/-- **Daemon → device, raw.**  Whatever state the tty was in and whatever (accepted) parameters are asked for, after
+    `_serial_setup` every byte string written reaches the line exactly as written: no CR inserted before LF, no CR↔NL
+    mapping, no tab expansion, no case mapping, NUL and 0xFF included. -/
+theorem C09_serial_raw_out (t t' : Termios) (p : Params) (h : serialSetup t p = some t') (bs : Bytes) :
+    ttyOut t' bs = bs :=
+  ttyOut_raw (serialSetup_raw h).2.2 bs
+
+/-- **Device → daemon, raw.**  After `_serial_setup` every byte string that arrives is handed to `read` exactly as it
+    arrived, and nothing is echoed back to the device: no CR/NL mapping, no stripping of the eighth bit, XON/XOFF, ^C, ^\, ^Z,
+    DEL, ^D, NUL and 0xFF are data, nothing waits for an end of line. -/
+theorem C09_serial_raw_in (t t' : Termios) (p : Params) (h : serialSetup t p = some t') (bs : Bytes) :
+    ttyIn t' bs = (bs, []) :=
+  ttyIn_raw (serialSetup_raw h).1 (serialSetup_raw h).2.1 bs
+
+/-- a tty in the cooked state, the default flags `9600,8n1`: `on\n`, a tab, XOFF, ^C, 0xFF and NUL pass both ways -/
+example : ∃ t', serialSetup cookedTty defaults = some t' ∧ t'.oflag = 4 ∧ t'.cflag = 0xbd ∧
+    ttyOut t' [111, 110, 10, 9, 19, 3, 255, 0] = [111, 110, 10, 9, 19, 3, 255, 0] ∧
+    ttyIn t' [111, 110, 13, 10, 9, 19, 3, 255, 0] = ([111, 110, 13, 10, 9, 19, 3, 255, 0], []) := ⟨_, rfl, by decide⟩
+/-- the theorems are not vacuous and the model discriminates: in the cooked state itself `\n` goes out as `\r\n`, a
+    received `\r` is read as `\n`, a line is held back until its end, XOFF and ^C are swallowed, everything is echoed.
+    Had `_serial_setup` left `OPOST` alone (`c_lflag &= ~OPOST` in place of `c_oflag &= ~OPOST`), a CR would go out before every LF. -/
+example : ttyOut cookedTty [111, 110, 10] = [111, 110, 13, 10] ∧ ttyIn cookedTty [111, 107, 13, 111] = ([111, 107, 10], [111, 107, 13, 10, 111]) ∧
+    ttyIn cookedTty [97, 19, 98, 10] = ([97, 98, 10], []) ∧ ttyIn cookedTty [97, 3, 98, 10] = ([98, 10], [94, 67, 98, 13, 10]) ∧
+    ttyOut { cookedTty with iflag := 0, lflag := 0 } [111, 110, 10] = [111, 110, 13, 10] := by decide
+
+/-- **Which flags matter (input).**  The input side is transparent — `ttyIn t bs = (bs, [])` for every byte string — as soon as
+    `ISTRIP INLCR IGNCR ICRNL IXON PARMRK` are clear in `c_iflag`, `IUCLC` is clear or `IEXTEN` is, and `ISIG ICANON ECHO` are
+    clear in `c_lflag`; the other flags (`IGNBRK BRKINT IGNPAR INPCK IXANY IXOFF IMAXBEL IUTF8`, `ECHOE ECHOK ECHONL ECHOCTL ECHOKE NOFLSH
+    TOSTOP EXTPROC` …) and all control characters may be anything.  `_serial_setup` gets there by zeroing both words. -/
+theorem C09_serial_raw_in_flags (t : Termios) (h : RawIn t) (bs : Bytes) : ttyIn t bs = (bs, []) :=
+  ttyIn_of_rawIn h bs
+
+/-- **None of the ten conditions can be dropped**: with exactly one of the flags set on an otherwise all-zero tty, some input
+    is altered, swallowed, held back or echoed.  (`0xC1`→`A`; LF→CR; CR dropped; CR→LF; `A`→`a`; XOFF swallowed; `0xFF` doubled; ^C
+    swallowed; `a` held back until the end of the line; `a` echoed.) -/
+theorem C09_serial_raw_in_flags_minimal :
+    let z (i l : Nat) : Termios := { iflag := i, oflag := 0, cflag := 0, lflag := l }
+    ttyIn (z ISTRIP 0) [0xc1] = ([0x41], []) ∧ ttyIn (z INLCR 0) [10] = ([13], []) ∧ ttyIn (z IGNCR 0) [13] = ([], []) ∧
+    ttyIn (z ICRNL 0) [13] = ([10], []) ∧ ttyIn (z IUCLC IEXTEN) [65] = ([97], []) ∧ ttyIn (z IXON 0) [19] = ([], []) ∧
+    ttyIn (z PARMRK 0) [255] = ([255, 255], []) ∧ ttyIn (z 0 ISIG) [3] = ([], []) ∧ ttyIn (z 0 ICANON) [97] = ([], []) ∧
+    ttyIn (z 0 ECHO) [97] = ([97], [97]) := by decide
+
+/-- **Which flags matter (output).**  Output is passed as written when `OPOST` is clear, and also when it is set but none of
+    `ONLCR OCRNL ONOCR OLCUC` is and tabs are not expanded (the delay and fill flags change nothing on Linux). -/
+theorem C09_serial_raw_out_flags (t : Termios) (h : flag t.oflag OPOST = false ∨ PlainOut t) (bs : Bytes) : ttyOut t bs = bs :=
+  ttyOut_of_plain h bs
+
+/-- … and each of the five alters some output under `OPOST`: LF→CR LF; CR→LF; CR at column 0 dropped; `a`→`A`; a tab becomes
+    eight blanks -/
+theorem C09_serial_raw_out_flags_minimal :
+    let z (o : Nat) : Termios := { iflag := 0, oflag := OPOST ||| o, cflag := 0, lflag := 0 }
+    ttyOut (z ONLCR) [10] = [13, 10] ∧ ttyOut (z OCRNL) [13] = [10] ∧ ttyOut (z ONOCR) [13] = [] ∧ ttyOut (z OLCUC) [97] = [65] ∧
+    ttyOut (z XTABS) [9] = [32, 32, 32, 32, 32, 32, 32, 32] := by decide
+
+/-- a tty with every flag that does not matter set, and odd control characters: still transparent -/
+example : RawIn { iflag := IGNBRK ||| BRKINT ||| IGNPAR ||| INPCK ||| IXANY ||| IXOFF ||| IMAXBEL ||| IUTF8 ||| IUCLC, oflag := 0, cflag := 0,
+                  lflag := ECHOE ||| ECHOK ||| ECHONL ||| ECHOCTL ||| ECHOKE ||| NOFLSH ||| TOSTOP ||| EXTPROC, vintr := 97, vstop := 98, verase := 99 } := by
+  constructor <;> decide
+
+/-- **The character format is the one asked for.**  After `_serial_setup` with parameters `(baud, databits, parity,
+    stopbits)`: the speed constant in `c_cflag` (what `cfgetispeed`/`cfgetospeed` report) and in `c_ispeed`/`c_ospeed` is
+    the `B…` constant that <termios.h> gives to `baud` bits per second; the size bits say 7 resp. 8 data bits; `CSTOPB` is
+    set exactly for 2 stop bits; `PARENB` is clear for `n`/`N`, set with `PARODD` clear for `e`/`E`, set with `PARODD` set
+    for `o`/`O`. -/
+theorem C09_serial_params (t t' : Termios) (p : Params) (h : serialSetup t p = some t') :
+    (∃ n b : Nat, (n : Int) = p.baud ∧ (n, b) ∈ stdBaud ∧ cfgetospeed t' = b ∧ cfgetispeed t' = b ∧ t'.ispeed = b ∧ t'.ospeed = b) ∧
+    ((p.databits = 7 ∧ charBits t' = 7) ∨ (p.databits = 8 ∧ charBits t' = 8)) ∧
+    ((p.stopbits = 1 ∧ flag t'.cflag CSTOPB = false) ∨ (p.stopbits = 2 ∧ flag t'.cflag CSTOPB = true)) ∧
+    ((parityNone p.parity = true ∧ flag t'.cflag PARENB = false) ∨
+     (parityEven p.parity = true ∧ flag t'.cflag PARENB = true ∧ flag t'.cflag PARODD = false) ∨
+     (parityOdd p.parity = true ∧ flag t'.cflag PARENB = true ∧ flag t'.cflag PARODD = true)) := by
+  obtain ⟨⟨n, b, hn, -, hs, hc, hi, ho⟩, hd, hst, hp, -⟩ := serialSetup_cflag h
+  refine ⟨⟨n, b, hn, hs, hc, ?_, hi, ho⟩, ?_, ?_, ?_⟩
+  · simp [cfgetispeed, (serialSetup_raw h).1, hc]
+  · rcases hd with ⟨h7, hz⟩ | ⟨h8, hz⟩
+    · exact .inl ⟨h7, charBits_of_CS7 hz⟩
+    · exact .inr ⟨h8, charBits_of_CS8 hz⟩
+  · rcases hst with ⟨h1, hz⟩ | ⟨h2, hz⟩
+    · exact .inl ⟨h1, by simp [flag, hz]⟩
+    · exact .inr ⟨h2, by simp [flag, hz]; decide⟩
+  · rcases hp with ⟨h1, hz⟩ | ⟨-, h2, hz, hz'⟩ | ⟨-, -, h3, hz, hz'⟩
+    · exact .inl ⟨h1, by simp [flag, hz]⟩
+    · exact .inr (.inl ⟨h2, by simp [flag, hz]; decide, by simp [flag, hz']⟩)
+    · exact .inr (.inr ⟨h3, by simp [flag, hz]; decide, by simp [flag, hz']; decide⟩)
+
+/-- `115200,7e2` on a tty in the cooked state: B115200, 7 bits, even parity, two stop bits -/
+example : ∃ t', serialSetup cookedTty ⟨115200, 7, 101, 2⟩ = some t' ∧ cfgetospeed t' = 4098 ∧ charBits t' = 7 ∧
+    flag t'.cflag PARENB = true ∧ flag t'.cflag PARODD = false ∧ flag t'.cflag CSTOPB = true := ⟨_, rfl, by decide⟩
+
+/-- **Nothing else is touched.**  Every other bit of `c_cflag` (`CREAD`, `CLOCAL`, `HUPCL`, `CRTSCTS`, …) is as it was,
+    `c_oflag` only loses `OPOST`, `VMIN` is set to 1 and `VTIME` to 0 whatever they were, and the other control characters are
+    as they were. -/
+theorem C09_serial_keeps (t t' : Termios) (p : Params) (h : serialSetup t p = some t') :
+    (∀ k, (CBAUD ||| CSIZE ||| CSTOPB ||| PARENB ||| PARODD) &&& k = 0 → t'.cflag &&& k = t.cflag &&& k) ∧
+    t'.oflag = clr t.oflag OPOST ∧ t'.vmin = 1 ∧ t'.vtime = 0 ∧
+    t'.vintr = t.vintr ∧ t'.vquit = t.vquit ∧ t'.verase = t.verase ∧ t'.vkill = t.vkill ∧ t'.veof = t.veof ∧
+    t'.vstart = t.vstart ∧ t'.vstop = t.vstop ∧ t'.vsusp = t.vsusp ∧ t'.veol = t.veol :=
+  ⟨(serialSetup_cflag h).2.2.2.2, serialSetup_rest h⟩
+
+/-- **What `_serial_setup` refuses, and with which message.**  It succeeds exactly when the baud is in the table
+    (300 … 460800), the data bits are 7 or 8, the stop bits 1 or 2 and the parity one of `n N e E o O`; otherwise it
+    reports the first of baud, data bits, stop bits, parity that is not supported and the tty is left as it was. -/
+theorem C09_serial_setup_rejects (t : Termios) (p : Params) :
+    ((∃ t', serialSetup t p = some t') ↔ GoodParams p) ∧
+    (serialSetupE t p = .error .baud ↔ ¬ ∃ n ∈ supportedBauds, (n : Int) = p.baud) ∧
+    (serialSetupE t p = .error .databits ↔ (∃ n ∈ supportedBauds, (n : Int) = p.baud) ∧ ¬(p.databits = 7 ∨ p.databits = 8)) ∧
+    (serialSetupE t p = .error .stopbits ↔ (∃ n ∈ supportedBauds, (n : Int) = p.baud) ∧ (p.databits = 7 ∨ p.databits = 8) ∧ ¬(p.stopbits = 1 ∨ p.stopbits = 2)) ∧
+    (serialSetupE t p = .error .parity ↔ (∃ n ∈ supportedBauds, (n : Int) = p.baud) ∧ (p.databits = 7 ∨ p.databits = 8) ∧ (p.stopbits = 1 ∨ p.stopbits = 2) ∧
+        ¬(parityNone p.parity = true ∨ parityEven p.parity = true ∨ parityOdd p.parity = true)) :=
+  ⟨serialSetup_isSome_iff t p, (serialSetupE_error t p).1, (serialSetupE_error t p).2.1, (serialSetupE_error t p).2.2.1, (serialSetupE_error t p).2.2.2.1⟩
+
+example : supportedBauds = [300, 1200, 2400, 4800, 9600, 19200, 38400, 57600, 115200, 230400, 460800] := by decide
+example : serialSetupE cookedTty ⟨14400, 9, 120, 3⟩ = .error .baud ∧ serialSetupE cookedTty ⟨9600, 9, 120, 3⟩ = .error .databits ∧
+    serialSetupE cookedTty ⟨9600, 8, 120, 3⟩ = .error .stopbits ∧ serialSetupE cookedTty ⟨9600, 8, 120, 1⟩ = .error .parity := by decide
+
+/-- **What the flags parser refuses: nothing.**  `sscanf(flags, "%d,%d%c%d", …)` is followed by
+    `assert(n >= EOF && n <= 4)`, and the return value is always one of `EOF` = -1, 0, …, 4: no flags string makes the assertion
+    fail (`parseFlags s` is never `none`), and the parameters `serial_connect` goes on with are the four variables as the
+    `sscanf` left them — what was not matched keeps its default; values that name no format are refused later by
+    `_serial_setup` (`C09_serial_setup_rejects`).  `EOF` is answered exactly for the strings that consist of white space only up to
+    their end, the empty string included. -/
+theorem C09_serial_flags_rejected (s : Bytes) :
+    parseFlags s ≠ none ∧ parseFlags s = some (sscanfFlags (cstr s)).2 ∧
+    (-1 ≤ (sscanfFlags (cstr s)).1 ∧ (sscanfFlags (cstr s)).1 ≤ 4) ∧
+    ((sscanfFlags (cstr s)).1 < 0 ↔ (cstr s).all isSpace = true) :=
+  ⟨by rw [parseFlags_some]; simp, parseFlags_some s, sscanfFlags_range _, sscanfFlags_neg_iff _⟩
+
+/-- **A device line without flags means `9600,8N1`.**  `serial_create` stores `""` for it; that string, and every string
+    that is blank up to its end, gets past the parser with the four defaults `baud = 9600, databits = 8, parity = 'N',
+    stopbits = 1`, which `_serial_setup` accepts from every state of the tty.  (Before fix d5bec1f the assertion read `n >= 0`,
+    `sscanf("")` answers `EOF` = -1, and such a device aborted the daemon at connect time — reproduced then on the real code by the
+    `serial` layer and with the real `powermand`.) -/
+theorem C09_serial_no_flags_fixed :
+    defaults = ⟨9600, 8, 78, 1⟩ ∧ parseFlags [] = some defaults ∧
+    (∀ s, (cstr s).all isSpace = true → parseFlags s = some defaults) ∧
+    (∀ t, ∃ t', serialSetup t defaults = some t') :=
+  ⟨rfl, by decide, fun _ h => parseFlags_blank h,
+   fun t => (serialSetup_isSome_iff t defaults).mpr (by unfold GoodParams; decide)⟩
+
+/-- blank, tab and newline, blank then NUL then junk: defaults; `x` too (zero matches) -/
+example : parseFlags [32] = some defaults ∧ parseFlags [9, 10, 32] = some defaults ∧ parseFlags [32, 0, 55] = some defaults ∧
+    parseFlags [120] = some defaults ∧ sscanfFlags [] = (-1, defaults) ∧ sscanfFlags [120] = (0, defaults) := by decide
+
+/-- **A flags string in its documented shape is read as written**: `<digits>,<digits><c><digits>` with a byte `c` that
+    is neither a digit nor NUL, numbers below 2³¹ — all four values are those of the string. -/
+theorem C09_serial_flags_read {b d s : Bytes} {c : UInt8} (hb : Digits b (44 :: (d ++ c :: s))) (hd : Digits d (c :: s)) (hs : Digits s [])
+    (hc : c ≠ 0) : parseFlags (b ++ 44 :: (d ++ c :: s)) = some ⟨digitsVal b, digitsVal d, c, digitsVal s⟩ :=
+  parseFlags_full hb hd hs hc
+
+/-- `9600,8n1`, `115200,7e2`; partial strings keep defaults; `%c` takes a blank for the parity; a baud beyond `int` wraps -/
+example : parseFlags [57, 54, 48, 48, 44, 56, 110, 49] = some ⟨9600, 8, 110, 1⟩ ∧
+    parseFlags [49, 49, 53, 50, 48, 48, 44, 55, 101, 50] = some ⟨115200, 7, 101, 2⟩ ∧
+    parseFlags [49, 50, 48, 48] = some ⟨1200, 8, 78, 1⟩ ∧ parseFlags [49, 50, 48, 48, 44, 55] = some ⟨1200, 7, 78, 1⟩ ∧
+    parseFlags [57, 54, 48, 48, 44, 56, 32, 110, 49] = some ⟨9600, 8, 32, 1⟩ ∧
+    parseFlags [52, 50, 57, 52, 57, 55, 54, 56, 57, 54, 44, 56, 110, 49] = some ⟨9600, 8, 110, 1⟩ := by decide
+
+/-- **Seven data bits: exactly what happens.**  The line discipline is as transparent as with eight
+    (`C09_serial_raw_out`/`_in` do not depend on the size); below it, a port set to `databits = 7` sends and receives the low
+    seven bits of each byte, so bytes below 0x80 pass unaltered and 0x80…0xFF lose their top bit; with `databits = 8` every byte
+    passes. (A pseudo-terminal has no such layer and keeps `CS8` whatever is asked.) -/
+theorem C09_serial_wire (t t' : Termios) (p : Params) (h : serialSetup t p = some t') (bs : Bytes) :
+    (p.databits = 8 → uartTx t' bs = bs) ∧
+    (p.databits = 7 → uartTx t' bs = bs.map (· &&& 127) ∧ ((∀ b ∈ bs, b.toNat < 128) → uartTx t' bs = bs)) := by
+  rcases (C09_serial_params t t' p h).2.1 with ⟨h7, hc⟩ | ⟨h8, hc⟩
+  · refine ⟨fun e => by omega, fun _ => ⟨uartTx_7 hc bs, fun ha => ?_⟩⟩
+    rw [uartTx_7 hc, map_and_127_ascii bs ha]
+  · exact ⟨fun _ => uartTx_8 hc bs, fun e => by omega⟩
+
+/-- **Receiving on a real port**, under the hypothesis the full statement does not have: the receiver was enabled
+    (`CREAD`) in the state `_serial_setup` started from.  Then 8 data bits deliver every byte, 7 the low seven bits. -/
+theorem C09_serial_uart_rx_partial (t t' : Termios) (p : Params) (h : serialSetup t p = some t') (hr : flag t.cflag CREAD = true) (bs : Bytes) :
+    (p.databits = 8 → (ttyIn t' (uartRx t' bs)).1 = bs) ∧ (p.databits = 7 → (ttyIn t' (uartRx t' bs)).1 = bs.map (· &&& 127)) := by
+  have hr' : flag t'.cflag CREAD = true := by rw [serialSetup_CREAD h, hr]
+  rcases (C09_serial_params t t' p h).2.1 with ⟨h7, hc⟩ | ⟨h8, hc⟩
+  · exact ⟨fun e => by omega, fun _ => by rw [C09_serial_raw_in t t' p h, uartRx_7 hr' hc]⟩
+  · exact ⟨fun _ => by rw [C09_serial_raw_in t t' p h, uartRx_8 hr' hc], fun e => by omega⟩
+
+/-- **`_serial_setup` never sets `CREAD` (nor `CLOCAL`).**  From a state with the receiver disabled — all-zero flag words, as
+    a program that builds its `termios` from scratch leaves them — the port is configured "successfully" and nothing the
+    device sends is ever received.  Not observable on a pseudo-terminal (it forces `CREAD`); follows from
+    `C09_serial_keeps`. -/
+theorem C09_serial_cread_counterexample :
+    ∃ t t', serialSetup t defaults = some t' ∧ flag t'.cflag CREAD = false ∧ uartRx t' [79, 75, 13, 10] = [] :=
+  ⟨{ iflag := 0, oflag := 0, cflag := 0, lflag := 0 }, _, rfl, by decide⟩
+
+/-- **`poll` after the set-up.**  Whatever `VMIN`/`VTIME` (and everything else) the tty was left with, after
+    `_serial_setup` the descriptor polls readable as soon as a single byte has arrived — and not before. -/
+theorem C09_serial_poll (t t' : Termios) (p : Params) (h : serialSetup t p = some t') (bs : Bytes) :
+    (bs ≠ [] → pollReadable t' bs = true) ∧ pollReadable t' [] = false :=
+  ⟨serialSetup_poll_ok h bs, by rw [serialSetup_poll h]; rfl⟩
+
+/-- **F36 repaired.**  The witness of the former `C09_serial_vmin_counterexample` — a tty left with `VMIN = 10`, `VTIME = 0`
+    by a program that read the port in blocks, the three bytes `OK\n` arriving — now polls readable: `_serial_setup` sets
+    `c_cc[VMIN] = 1`, `c_cc[VTIME] = 0` (fix 1c18a0c).  Before, `poll`, in which the daemon waits, stayed silent until ten bytes had
+    accumulated and the `expect` timed out (reproduced then on the real code and kernel, and with the real `powermand`). -/
+theorem C09_serial_vmin_f36_fixed :
+    ∃ t', serialSetup { cookedTty with vmin := 10 } defaults = some t' ∧ t'.vmin = 1 ∧ t'.vtime = 0 ∧
+      ttyIn t' [79, 75, 10] = ([79, 75, 10], []) ∧ pollReadable t' [79, 75, 10] = true ∧
+      pollReadable { t' with vmin := 10 } [79, 75, 10] = false :=
+  ⟨_, rfl, by decide⟩
 
 end Pm.Props.C09
